@@ -1,6 +1,9 @@
 package gen
 
 import (
+	"fmt"
+	"strconv"
+	"strings"
 	"verif/internal/model"
 	"verif/internal/mon"
 )
@@ -76,4 +79,45 @@ func shapeNode(r *mon.Rng, o ShapeOpts, depth int, isProp bool) *model.Node {
 	mon.Shuffle(r, rules)
 	n.Rules = rules
 	return n
+}
+
+// BigShape is a schema of the rule-free fragment that is large in every direction: a chain of
+// objects and arrays a dozen levels deep, an object with thirty keys, an array with twenty
+// example items, long strings and keys (several hundred bytes of text).
+func BigShape(r *mon.Rng) *model.Node {
+	leaf := func() *model.Node {
+		n := scalarExample(r)
+		if r.Chance(1, 5) {
+			n.Rules = append(n.Rules, model.RBool("nullable", true))
+		}
+		return n
+	}
+	// the deep chain
+	deep := leaf()
+	for d := 0; d < r.Range(9, 14); d++ {
+		if r.Bool() {
+			deep = model.Obj(model.P("d"+strconv.Itoa(d), deep))
+			if r.Chance(1, 3) {
+				deep.Props = append(deep.Props, model.P("s"+strconv.Itoa(d), leaf().With(model.RBool("optional", true))))
+			}
+		} else {
+			deep = model.Arr(deep)
+		}
+	}
+	// the wide object
+	wide := model.Obj()
+	for i := 0; i < r.Range(18, 32); i++ {
+		p := model.P(fmt.Sprintf("key_%02d_%s", i, strings.Repeat("x", i%7)), leaf())
+		if i%3 == 0 {
+			p.Node.Rules = append(p.Node.Rules, model.RBool("optional", true))
+		}
+		wide.Props = append(wide.Props, p)
+	}
+	// the long array
+	long := model.Arr()
+	for i := 0; i < r.Range(14, 24); i++ {
+		long.Items = append(long.Items, leaf())
+	}
+	text := model.Str(strings.Repeat("long string é ", r.Range(20, 40)))
+	return model.Obj(model.P("deep", deep), model.P("wide", wide), model.P("long", long), model.P("text", text))
 }
